@@ -2,7 +2,7 @@
    (the limiter on its own).  Model: model/Limiter.v - session.py:57-89 on CPython 3.12's
    asyncio.Semaphore.  Every theorem is over ALL label sequences (labels that are not enabled
    are no-ops); the only hypothesis is the property's own: targets are at least 1. *)
-From AV Require Import Base Limiter LimiterProofs LimiterOrder LimiterProgress Gen_session Throttle ThrottleProofs.
+From AV Require Import Base Limiter LimiterProofs LimiterOrder LimiterProgress Gen_session Throttle ThrottleProofs LimiterCode LimiterCodeProofs.
 Local Open Scope Z_scope.
 
 Definition targets_ge_1 (ls : list label) : Prop := Forall ok_label ls.
@@ -104,6 +104,45 @@ Example C13_ex :
   holders st = [3%N] /\ semv st = 1 /\ waiters st = [] /\ value st = 0 /\ targets_ge_1 [SetTarget 1].
 Proof. cbn. repeat split. constructor; [cbn; lia|constructor]. Qed.
 
+(* ---------- the code of the Concurrency class itself, regenerated from the source ---------- *)
+(* _retarget_semaphore, __aenter__, __aexit__ and set_target are translated statement by statement on every
+   run (gen/Gen_session.v: conc_retarget, conc_aenter, conc_aexit, conc_set_target); nothing was left
+   untranslated, and running the generated code on the model's state does exactly what the primitives of the
+   hand-written model do: __aexit__ retires one permit above the target or releases; _retarget_semaphore
+   refuses at a target <= 0 and otherwise releases target - _sem_value permits one by one; __aenter__ refuses at
+   once or waits for a permit with _retarget_semaphore still to run; the labels Exit / SetTarget and the
+   model's [retarget] are built from exactly these pieces *)
+Theorem C13_code_known :
+  stmts_known 5 conc_retarget && stmts_known 5 conc_aenter && stmts_known 5 conc_aexit && stmts_known 5 conc_set_target = true.
+Proof. exact concurrency_code_known. Qed.
+
+Theorem C13_code_aexit : forall st,
+  cexec 4 0 st conc_aexit = CNormal (if target st <? semv st then set_semv st (semv st - 1) else release st).
+Proof. exact aexit_code. Qed.
+
+Theorem C13_code_retarget : forall st,
+  let n := Z.to_nat (target st - semv st) in
+  cexec (3 * n + 4) 0 st conc_retarget = if target st <=? 0 then CRaised st else CNormal (release_n n st).
+Proof. exact retarget_code. Qed.
+
+Theorem C13_code_aenter : forall st,
+  cexec 3 0 st conc_aenter = if target st <=? 0 then CRaised st else CSuspend st [SRetarget].
+Proof. exact aenter_code. Qed.
+
+Theorem C13_code_set_target : forall st n, cexec 2 n st conc_set_target = CNormal (set_target st n).
+Proof. exact set_target_code. Qed.
+
+Theorem C13_model_built_from_code : forall st w,
+  (memN w (holders st) = true ->
+   CNormal (step st (Exit w)) = cexec 4 0 (set_holders st (removeN w (holders st)) (nhold st - 1) (admitted st)) conc_aexit) /\
+  (0 < target st ->
+   exists st', cexec (3 * Z.to_nat (target st - semv st) + 4) 0 st conc_retarget = CNormal st' /\
+               retarget st w = set_holders st' (w :: holders st') (nhold st' + 1) (admitted st' ++ [w])) /\
+  (forall n, CNormal (step st (SetTarget n)) = cexec 2 n st conc_set_target).
+Proof.
+  intros st w. split; [apply exit_is_aexit|]. split; [apply retarget_is_code|]. intros n. apply settarget_is_code.
+Qed.
+
 (* ---------- the session level: the request-processing coroutines against the limiter (model/Throttle.v) ---------- *)
 (* the shape of RPCSession._throttled_request and MessageSession._throttled_message - regenerated from
    the source on every run - is the one the theorems below need: the handler is awaited only inside the
@@ -199,6 +238,12 @@ Print Assumptions C13_exit_progress.
 Print Assumptions C13_reachable_inv.
 Print Assumptions C13_exit_serves_head.
 Print Assumptions C13_zero_refuses.
+Print Assumptions C13_code_known.
+Print Assumptions C13_code_aexit.
+Print Assumptions C13_code_retarget.
+Print Assumptions C13_code_aenter.
+Print Assumptions C13_code_set_target.
+Print Assumptions C13_model_built_from_code.
 Print Assumptions C13_session_shape.
 Print Assumptions C13_session_bound.
 Print Assumptions C13_request_handlers_bounded.
